@@ -41,7 +41,10 @@ for diff in sorted(glob.glob("/tmp/wt_rC??_out/r?.diff")):
 with open("/verif/benign/INDEX.md", "w") as fh:
     fh.write("# Behaviour-preserving changes (wave R) run through all 20 checks\n\nAn alarm here is a false alarm by construction. "
              "`alarms (first run)` lists checks that exited non-zero; `after correction` the outcome of re-running those checks "
-             "after the machinery was corrected (see DESIGN.md §9 for what each was).\n\n"
+             "after the machinery was corrected (see DESIGN.md §9 for what each was): C05 on C01-r1 was a true false alarm (domain-edge margin); "
+             "the C08/C03 entries of C05-r1, C07-r1, C13-r1 were check errors (exit 3) from a build-cache race between concurrent runs; "
+             "the C19 entries of C04-r1, C09-r1, C19-r1, C20-r1 were NOT false: those worktrees predated repo fix 3b0a26cd and the "
+             "strengthened C19 correctly reported the NetCDF one-atom broadcast defect in them.\n\n"
              "| change | files | what | alarms (first run) | after correction |\n|---|---|---|---|---|\n")
     for r in rows:
         fh.write("| %s | %s | %s | %s | %s |\n" % r)
